@@ -17,7 +17,7 @@ ASSUMPTIONS = [
     "transfer operators are taken from the implementation's hierarchy (property C04 covers them); coarse direct solve modelled as exact solve (C16)",
     "contraction is proved as strict decrease of the energy norm of every non-zero error (and |lambda| < 1 for every eigenvalue of I - BA that lies in the field); the step from there to the spectral radius (existence of an A-orthogonal eigenbasis over the reals) is not formalised",
     "ILU(0)/Chebyshev smoothers inside the cycle: model linked into the amg driver for the correspondence; no energy theorem for them (hypotheses of the cycle theorem); scaling: the Chebyshev sweep is proved (C02_chebyshev_scales), ILU(0) is covered by the scaling oracle on the implementation only",
-    "block value types (static_matrix<Q,b,b>, b = 2, 3; tools/props/c02_block.py): the block coarse direct solver is modelled by its specification (exact solve of the expanded scalar system); base scalars are embedded as c*I; proved for blocks: history independence and linearity over base scalars (right-linearity over the ring); symmetry / positive definiteness / energy decrease are implementation-side oracles only (full symmetry statement kept in Properties_C02.v); implementation runs that abort in detail::inverse on a singular diagonal block (non-symmetric matrices with smoothed aggregation) are out of domain and counted, not compared",
+    "block value types (static_matrix<Q,b,b>, b = 2, 3; tools/props/c02_block.py): the block coarse direct solver is modelled by its specification (exact solve of the expanded scalar system); base scalars are embedded as c*I; proved for blocks: history independence, linearity over base scalars (right-linearity over the ring), symmetry of the V(1,1) cycle with damped Jacobi / SPAI-0 over a ring with an anti-automorphism; symmetry for the other smoothers and cycle shapes, positive definiteness and energy decrease are implementation-side oracles only (full symmetry statement kept in Properties_C02.v); implementation runs that abort in detail::inverse on a singular diagonal block (non-symmetric matrices with smoothed aggregation) are out of domain and counted, not compared",
     "scaling clause: proved for the model over any field (c <> 0, transfer operators given); on the implementation checked in exact arithmetic for c = 2^k and a few other c > 0 (all coarsenings build the SAME transfer operators from c*A) and in the double build bitwise for c = 2^k, |k| <= 40 (no overflow / underflow in the generated range)",
 ]
 RULE = "seeded SPD M-matrices (paths, grids, random graphs) x 4 coarsenings x {damped_jacobi, spai0, gauss_seidel, ilu0, chebyshev} x ncycle/npre/npost/pre_cycles/coarse_enough/max_levels/direct_coarse; scripts: apply f, apply g, apply a f + b g, apply f again, cycle with non-zero x, unit vectors for small n; every third case has a twin built from c*A (exact build; c = 2^k, |k| <= 40, 3, 5/7), plus 120 (quick) / 600 (thorough) pairs A / 2^k A on dyadic data in the double build compared bitwise, plus Ruge-Stuben twins at 2^-60 that exhibit the known finding C02-rs-absolute-eps; block values: 240 (quick) / 1200 (thorough) block M-matrices (b = 2, every sixth b = 3; three in four symmetric A_JI = A_IJ^T, generic non-commuting blocks) x {aggregation, smoothed_aggregation} x the five relaxations x cycle parameters, same script shape (unit vectors for n*b <= 12 / 16); non-trivial = non-zero output"
